@@ -188,6 +188,8 @@ class FormulaTransformer(m.MatcherDecoratableTransformer):
 
         n_to_s = self.name_to_symbol[i]
         while n_to_s is None:   # inlined comprehension: use the enclosing scope
+            if scope.assignments[node.value]:
+                return False    # a variable of the comprehension itself
             scope = scope.parent
             i = next(i for i, v in enumerate(self.scopes) if scope == v)
             n_to_s = self.name_to_symbol[i]
